@@ -2027,6 +2027,17 @@ class FileNameTS:
                         return 'DU?'
                     if self.is_sep(real[0]) and on_name and whole:
                         return 'N' if d.get('$nosep') else 'S?'
+                if name in FIND_DELIM and real and self.is_dot(real[0]):
+                    # the *first* dot from a start position (siblings that search the last dot disagree: see the
+                    # search-agreement clause of R-C18-1); it lies in the last component iff the search starts there
+                    st0 = self.ev(real[1], d) if len(real) >= 2 else 'Z'
+                    if on_name and (st0 == 'L' or (st0 == 'Z' and d.get('$nosep'))):
+                        return 'DG?'
+                    if on_name and st0 == 'Z':
+                        return 'D?'
+                    if self.base_like(obj, d) and st0 == 'Z':
+                        return 'DG?'
+                    return 'DU?'
                 if name in FIND_DELIM and len(real) == 2 and on_name and self.is_sep(real[0]):
                     v = self.local(real[1])
                     if v is not None and self.val(d, v) in ('D?', 'D', 'DG', 'DG?', 'DX'):
@@ -2369,21 +2380,27 @@ def check_filename(ctx, tu):
         ctx.broken('R-C18-1: cannot identify the string member of %s' % FNAME)
         return 0, 0
     n1 = n8 = 0
+    searches = {}
     for f in sorted(tu.functions.values(), key=lambda f: f['l']):
         if f.get('rec') != FNAME or f['dep'] or tu.cfg(f) is None or f.get('ctor') or f.get('dtor'):
             continue
         ts = FileNameTS(tu, f, field)
         # does the function look for a dot or a separator in the name?
         has_dot = has_sep = False
+        kinds = {}
         for b, i, n in ts.g.stmts():
-            if n.get('kind') == 'CXXMemberCallExpr' and last_name(tu.sd(n).get('q')) in FIND_LAST and \
+            if n.get('kind') == 'CXXMemberCallExpr' and last_name(tu.sd(n).get('q')) in FIND_LAST + FIND_DELIM and \
                     (tu.sd(n).get('q') or '').startswith('std::basic_string<'):
                 s, obj, args = tu.call_parts(n)
+                last = last_name(tu.sd(n).get('q')) in FIND_LAST
                 if args and ts.is_dot(args[0]):
                     has_dot = True
-                if args and ts.is_sep(args[0]):
+                    kinds.setdefault('last' if last else 'first', n)
+                if args and ts.is_sep(args[0]) and last:
                     has_sep = True
         name = last_name(f['q'])
+        if has_dot:
+            searches[name] = (kinds, f)
         if not (has_dot or has_sep):
             continue
         file, fname = tu.fn_file(f), fn_name(f)
@@ -2470,6 +2487,27 @@ def check_filename(ctx, tu):
             else:
                 ctx.violation(R8, rinst, 'returns %s, expected %s' % (show_str(got), ' or '.join(sorted({show_str(w) for w in want}))),
                               tu.loc(node), key='%s|%s|%s|cut' % (R8, file, fname))
+    # ---- search agreement: every sibling locates the extension dot with the same search as ext()
+    ref = searches.get('ext')
+    for name in sorted(searches):
+        if name == 'ext' or name not in CUT_SPEC:
+            continue
+        kinds, f = searches[name]
+        inst = '%s: dot search agrees with ext()' % fn_name(f)
+        if ref is None or len(ref[0]) != 1:
+            ctx.undecided(R1, inst, "ext() does not locate the extension dot with exactly one kind of search", tu.fn_loc(f))
+            continue
+        want = list(ref[0])[0]
+        words = {'last': "the last '.'", 'first': "the first '.'"}
+        wrong = [k for k in kinds if k != want]
+        if wrong:
+            node = kinds[wrong[0]]
+            ctx.violation(R1, inst, "`%s` locates the extension dot as %s while ext() uses %s (`%s`): for a last component with "
+                          "two dots (\"a.tar.gz\") the siblings cut at different dots and base() != name() + '.' + ext()"
+                          % (tu.show(node), words[wrong[0]], words[want], tu.show(list(ref[0].values())[0])), tu.loc(node),
+                          key='%s|%s|%s|dot-search-%s-vs-%s' % (R1, tu.fn_file(f), fn_name(f), wrong[0], want))
+        else:
+            ctx.ok(R1, inst, 'searches %s like ext()' % words[want], tu.fn_loc(f))
     return n1, n8
 
 
@@ -3105,6 +3143,261 @@ def show_key(k):
 
 
 # ====================================================================================================
+#  R-C18-9  the parameter list keeps URL order (only appended to, never reordered)
+# ====================================================================================================
+ORDER_DESTROY = {'sort', 'partial_sort', 'nth_element', 'shuffle', 'random_shuffle', 'partition', 'unique', 'remove',
+                 'remove_if', 'make_heap', 'push_heap', 'pop_heap', 'sort_heap', 'next_permutation', 'prev_permutation',
+                 'inplace_merge', 'replace', 'replace_if', 'fill', 'fill_n', 'generate', 'generate_n', 'swap_ranges',
+                 'iter_swap'}
+ORDER_KEEP_UNKNOWN = {'reverse', 'rotate', 'stable_sort', 'stable_partition'}
+ORDER_READ = {'find', 'find_if', 'find_if_not', 'any_of', 'all_of', 'none_of', 'count', 'count_if', 'for_each', 'equal_range',
+              'lower_bound', 'upper_bound', 'binary_search', 'distance', 'next', 'prev', 'advance', 'max_element',
+              'min_element', 'minmax_element', 'accumulate', 'equal', 'mismatch', 'search', 'adjacent_find', 'is_sorted',
+              'find_end', 'find_first_of', 'begin', 'end', 'cbegin', 'cend'}
+VEC_APPEND = {'push_back', 'emplace_back'}
+VEC_READ = {'size', 'empty', 'capacity', 'reserve', 'shrink_to_fit', 'max_size', 'at', 'operator[]', 'front', 'back', 'data',
+            'cbegin', 'cend', 'crbegin', 'crend', 'get_allocator'}
+VEC_ITER = {'begin', 'end', 'rbegin', 'rend'}
+WRAP = ('MaterializeTemporaryExpr', 'ImplicitCastExpr', 'CXXBindTemporaryExpr', 'ExprWithCleanups', 'ParenExpr',
+        'CXXConstructExpr', 'CXXFunctionalCastExpr', 'CXXStaticCastExpr')
+
+
+def order_scan(tu, field_q):
+    """classify every access to the member `field_q` in every function body of the unit:
+       [(kind, text, node, function)]  kind: append | read | iterate | destroy | undecided"""
+    out = []
+
+    def algo(call, fn, depth):
+        q = tu.sd(call).get('q') or ''
+        nm = last_name(q)
+        nargs = len(tu.kids(call)) - 1
+        if q.startswith('std::') and nm in ORDER_DESTROY:
+            return ('destroy', 'std::%s reorders / overwrites the elements: the URL order of parameters with equal names is lost' % nm)
+        if q == 'std::stable_sort' and nargs == 2:
+            return ('destroy', 'std::stable_sort without a comparator orders std::pair by name and then by value: parameters with '
+                               'equal names are reordered by value')
+        if q.startswith('std::') and nm in ORDER_KEEP_UNKNOWN:
+            return ('undecided', 'std::%s rearranges the list; whether equal names keep their URL order is not decided' % nm)
+        if q.startswith('std::') and nm in ORDER_READ:
+            return ('read', 'std::%s' % nm)
+        return ('undecided', 'iterator into the list is passed to `%s`' % (q or tu.show(call)))
+
+    def follow(node, fn, depth=0):
+        """what happens to an iterator value produced by `node`"""
+        if depth > 6:
+            return [('undecided', 'iterator flow too deep')]
+        cur = node
+        p = tu.par(cur)
+        while p is not None and p.get('kind') in WRAP:
+            if p.get('kind') == 'CXXConstructExpr' and '__normal_iterator' not in (tu.sd(p).get('q') or '') \
+                    and 'reverse_iterator' not in (tu.sd(p).get('q') or ''):
+                break
+            cur, p = p, tu.par(p)
+        if p is None:
+            return [('undecided', 'iterator use not understood')]
+        k = p.get('kind')
+        if k == 'CallExpr':
+            return [algo(p, fn, depth)]
+        if k in ('CXXOperatorCallExpr', 'CXXMemberCallExpr'):
+            nm = last_name(tu.sd(p).get('q'))
+            if nm in ('operator+', 'operator-', 'operator++', 'operator--', 'operator+=', 'operator-=') and \
+                    '__normal_iterator' in (tu.sd(p).get('ct') or ''):
+                return follow(p, fn, depth + 1)
+            if nm in ('operator!=', 'operator==', 'operator<', 'operator*', 'operator->', 'operator-', 'operator++', 'operator--',
+                      'operator+=', 'operator-=', 'base', 'operator<=', 'operator>', 'operator>='):
+                return [('iterate', nm)]
+            return [('undecided', 'iterator is passed to `%s`' % tu.show(p))]
+        if k == 'VarDecl':
+            if (p.get('name') or '').startswith('__begin') or (p.get('name') or '').startswith('__end'):
+                return [('iterate', 'range-for')]
+            res = []
+            body = tu.body(fn)
+            for y in tu.walk(body):
+                if y.get('kind') == 'DeclRefExpr' and y.get('referencedDecl', {}).get('id') == p.get('id'):
+                    res += follow(y, fn, depth + 1)
+            return res or [('iterate', 'unused iterator')]
+        if k in ('MemberExpr',):
+            return [('iterate', 'member of iterator')]
+        if k == 'BinaryOperator' and p.get('opcode') in ('==', '!='):
+            return [('iterate', 'compare')]
+        return [('undecided', 'iterator flows into `%s`' % tu.show(p))]
+
+    for f in tu.functions.values():
+        if f['dep'] or f.get('implicit') or f.get('defaulted'):
+            continue
+        body = tu.body(f)
+        if body is None:
+            continue
+        for n in tu.walk(body):
+            if n.get('kind') != 'MemberExpr' or tu.sd(n).get('q') != field_q or tu.sd(n).get('k') != 'member':
+                continue
+            if (tu.sd(n).get('ct') or '').startswith('const '):
+                out.append(('read', 'const access', n, f))
+                continue
+            p = tu.par(n)
+            cur = n
+            const = False
+            while p is not None and p.get('kind') in ('ImplicitCastExpr', 'ParenExpr'):
+                if p.get('castKind') == 'NoOp' and (tu.sd(p).get('ct') or '').startswith('const '):
+                    const = True
+                cur, p = p, tu.par(p)
+            if const:
+                out.append(('read', 'const access', n, f))
+                continue
+            pk = p.get('kind') if p else None
+            if pk == 'MemberExpr':
+                mname = p.get('name')
+                call = tu.par(p)
+                if mname in VEC_APPEND:
+                    out.append(('append', mname, call, f))
+                elif mname in VEC_READ:
+                    out.append(('read', mname, call, f))
+                elif mname in VEC_ITER:
+                    for kind, text in follow(call, f):
+                        out.append((kind, text, call, f))
+                elif mname in ('insert', 'emplace'):
+                    args = tu.kids(call)[1:] if call is not None else []
+                    at_end = False
+                    if args:
+                        for y in tu.walk(args[0]):
+                            if y.get('kind') == 'MemberExpr' and y.get('name') in ('end', 'cend'):
+                                at_end = True
+                    out.append(('append', mname + ' at end()', call, f) if at_end else
+                               ('undecided', '`%s` inserts into the list at a position other than its end' % tu.show(call), call, f))
+                else:
+                    out.append(('undecided', 'the list is modified by `%s`' % mname, call, f))
+            elif pk == 'CXXOperatorCallExpr' and last_name(tu.sd(p).get('q')) == 'operator[]':
+                out.append(('read', 'operator[]', p, f))
+            elif pk == 'VarDecl' and (p.get('name') or '').startswith('__range'):
+                out.append(('iterate', 'range-for', p, f))
+            elif pk == 'CallExpr':
+                kind, text = algo(p, f, 0)
+                out.append((kind if kind != 'read' else 'undecided', 'the whole list is passed to `%s`' % (tu.sd(p).get('q') or '?'), p, f))
+            else:
+                out.append(('undecided', 'the list is used in `%s`' % (tu.show(p) if p else '?'), n, f))
+    return out
+
+
+def check_param_order(ctx, tu, tu_w):
+    R = 'R-C18-9'
+    ctx.describe(R, 'the name=value list keeps URL order: PseudoURL::params is only appended to (once per token, tokens 1..n in '
+                    'ascending order, token 0 is the file name) and is never handed to an operation that reorders or overwrites it')
+    n = 0
+    # ---- positive example (the expected count of order-destroying operations in /repo is zero)
+    wr = order_scan(tu_w, 'rkverif::c18w::Bag::items')
+    wk = [r[0] for r in wr]
+    if wk.count('destroy') < 2 or wk.count('append') < 1 or 'undecided' in wk:
+        ctx.broken('R-C18-9: the positive example witness/c18_param_order.cpp is not classified as expected (%s)' % wk)
+    fq = URL + '::params'
+    rec = [r for r in tu.records.values() if r.get('q') == URL]
+    fld = [fl for r in rec for fl in r.get('fields', []) if fl['name'] == 'params']
+    if not fld:
+        ctx.broken('R-C18-9: member %s not found' % fq)
+        return 0
+    pairs = 'std::pair<std::basic_string<char>, std::basic_string<char>>' in fld[0]['ct']
+    recs = order_scan(tu, fq)
+    appends = 0
+    for kind, text, node, f in recs:
+        n += 1
+        file, fname = tu.fn_file(f), fn_name(f)
+        inst = '%s: `%s`' % (fname, tu.show(node))
+        loc = tu.loc(node)
+        if kind == 'destroy':
+            if pairs:
+                ctx.violation(R, inst, '%s; afterwards no lookup can tell which duplicate came last in the URL' % text, loc,
+                              key='%s|%s|%s|reorders-params-%s' % (R, file, fname, (re.findall(r'std::(\w+)', text) or ['op'])[0]))
+            else:
+                ctx.undecided(R, inst, text + ' (element type is not a plain pair of strings)', loc)
+        elif kind == 'undecided':
+            ctx.undecided(R, inst, text, loc)
+        else:
+            if kind == 'append':
+                appends += 1
+            ctx.ok(R, inst, kind + (': ' + text if text else ''), loc, nontrivial=(kind == 'append'))
+    if appends < 1:
+        ctx.broken('R-C18-9: no append to %s found' % fq)
+    # ---- the constructor appends once per token, in token order
+    for f in tu.fns(q=URL + '::PseudoURL'):
+        if f['dep'] or tu.cfg(f) is None or f.get('implicit') or f.get('ctor') in ('copy', 'move') or not f.get('params'):
+            continue
+        n += 1
+        x = FnX(tu, f)
+        file, fname = tu.fn_file(f), fn_name(f)
+        inst = '%s: one parameter per token, in token order' % fname
+        key = '%s|%s|%s|' % (R, file, fname)
+        sites = [(node, x.pos_of(node)) for kind, text, node, ff in recs if kind == 'append' and ff is f]
+        hs = [h for h in loops_of(x) if any(pos and pos[0] in CountLoop._body_blocks(_Hdr(x, h)) for nd, pos in sites)]
+        if len(hs) != 1 or not sites:
+            ctx.undecided(R, inst, 'the appends are not inside exactly one loop', tu.fn_loc(f))
+            continue
+        lp = CountLoop(x, hs[0])
+        if not lp.ok:
+            ctx.undecided(R, inst, lp.why, tu.fn_loc(f))
+            continue
+        loc = tu.loc(lp.cond)
+        bad, und = [], []
+        if any(pos[0] not in lp.body for nd, pos in sites):
+            und.append('a parameter is appended outside the token loop')
+        # exactly one append on every path through the body
+        g = x.g
+        site_blocks = {}
+        for nd, pos in sites:
+            site_blocks[pos[0]] = site_blocks.get(pos[0], 0) + 1
+        counts = set()
+        start = g.blocks[lp.header].succ[0]
+        stack = [(start, 0, frozenset())]
+        steps = 0
+        while stack and steps < 5000:
+            b, c, seen = stack.pop()
+            steps += 1
+            c += site_blocks.get(b, 0)
+            for s_ in g.blocks[b].succ:
+                if s_ is None:
+                    continue
+                if s_ == lp.header:
+                    counts.add(c)
+                elif s_ in lp.body and s_ not in seen:
+                    stack.append((s_, c, seen | {b}))
+        if counts != {1}:
+            bad.append(('params-per-token', 'a token yields %s parameters on some path through the loop, expected exactly 1'
+                        % sorted(counts)))
+        if lp.step != 1 or not lp.ascending_test:
+            bad.append(('token-order', 'the tokens are not walked in ascending order (step %s): the URL order of the parameters is lost' % lp.step))
+        # tokens vector: the loop bound is size(tokens); token 0 is the file name
+        ba = (lp.bound_excl if lp.ascending_test else Poly.const(0)).as_atom()
+        if not (isinstance(ba, tuple) and ba[0] == 'size' and ba[1][0] == 'var'):
+            und.append('loop bound `%s` is not the number of tokens' % tu.show(lp.cond))
+        else:
+            tokkey = ba[1]
+            fn0 = None
+            for b, i, nd in g.stmts():
+                if nd.get('kind') == 'CXXOperatorCallExpr' and last_name(tu.sd(nd).get('q')) == 'operator=' and \
+                        (tu.sd(nd).get('q') or '').startswith('std::basic_string<'):
+                    ks = tu.kids(nd)[1:]
+                    if len(ks) == 2 and x.objkey(ks[0])[0] == 'field':
+                        r = x.peel(ks[1])
+                        if r is not None and r.get('kind') == 'CXXOperatorCallExpr' and last_name(tu.sd(r).get('q')) == 'operator[]':
+                            rk = tu.kids(r)[1:]
+                            if x.objkey(rk[0]) == tokkey:
+                                fn0 = x.poly_at(rk[1], (b.id, i)).as_int()
+            first = lp.init.as_int()
+            if fn0 is None or first is None:
+                und.append('cannot find `member = tokens[constant]` for the file name or the first parameter index')
+            elif first != fn0 + 1:
+                bad.append(('params-loop-start', 'the file name is token %d but the parameters start at token %d: %s'
+                            % (fn0, first, 'a parameter is dropped' if first > fn0 + 1 else 'the file name is also stored as a parameter')))
+        if bad:
+            for k, m in bad:
+                ctx.violation(R, inst, m, loc, key=key + k)
+        elif und:
+            for u in und:
+                ctx.undecided(R, inst, u, loc)
+        else:
+            ctx.ok(R, inst, 'ascending loop over tokens [%s, %s), one append per token' % (lp.init.show(), lp.bound_excl.show()), loc)
+    return n
+
+
+# ====================================================================================================
 def run(ctx):
     ctx.assume('size arithmetic in the analysed helpers is read over the mathematical integers (no wrap-around), '
                'except npos + 1 == 0')
@@ -3112,7 +3405,8 @@ def run(ctx):
     jobs = [dict(unit='drivers/c18_strings.cpp', config='TBB'),
             dict(unit='rkcommon/utility/PseudoURL.cpp', config='TBB'),
             dict(unit='rkcommon/os/FileName.cpp', config='TBB'),
-            dict(unit='rkcommon/common.cpp', config='TBB')]
+            dict(unit='rkcommon/common.cpp', config='TBB'),
+            dict(unit='witness/c18_param_order.cpp', config='TBB')]
     tus = ctx.front.parse_many(jobs)
     run_on(ctx, *tus)
     if ctx.tier == 'thorough':
@@ -3133,7 +3427,7 @@ ANCHORS = {
 }
 
 
-def run_on(ctx, tu_drv, tu_url, tu_fn, tu_common):
+def run_on(ctx, tu_drv, tu_url, tu_fn, tu_common, tu_w):
     for which, tu in (('drv', tu_drv), ('url', tu_url), ('fn', tu_fn), ('common', tu_common)):
         for q in ANCHORS[which]:
             if not [f for f in tu.fns(q=q) if not f['dep'] and tu.cfg(f) is not None]:
@@ -3151,6 +3445,8 @@ def run_on(ctx, tu_drv, tu_url, tu_fn, tu_common):
                                  'tree; PseudoURL constructor: 2 delimiters')
     n4 = check_url_lookup(ctx, tu_url)
     ctx.floor('R-C18-4', n4, 2, 'PseudoURL::getValue, PseudoURL::hasParam')
+    n9 = check_param_order(ctx, tu_url, tu_w)
+    ctx.floor('R-C18-9', n9, 4, 'accesses to PseudoURL::params (2 appends, 2 scans) + the constructor loop')
     ctx.describe('R-C18-3', 'SI ladder: each rung of prettyDouble/prettyNumber has threshold == divisor == value of its suffix '
                             '(sub-unit rungs: threshold == 1000 x value), rungs form a gap-free ladder in steps of 10^3')
     n3 = check_ladder(ctx, tu_common, 'rkcommon::prettyDouble') + check_ladder(ctx, tu_common, 'rkcommon::prettyNumber')
